@@ -1,11 +1,81 @@
-"""witness finder / replay (filled in per property); never decides a verdict"""
-import json, os, sys
+"""Witness finder / replay.  Never decides a verdict: it only tries to turn a failed obligation into a concrete
+failing input on the REAL crate (a small cargo project under /verif/replay linked against the repo under test)."""
+import json, os, sys, subprocess, shutil, time
+ROOT = os.path.dirname(os.path.dirname(os.path.abspath(__file__)))
+
+# property -> list of (binary, args) boundary-input enumerations
+FINDERS = {
+    "C01": [("chunk_witness", ["c01"])],
+    "C06": [("chunk_witness", ["c06"])],
+    "C07": [("chunk_witness", ["c07"])],
+    "C08": [("chunk_witness", ["c08"])],
+    "C15": [("chunk_witness", ["c15"])],
+    "C19": [("chunk_witness", ["c19"])],
+    "C03": [("chunk_witness", ["c06"]), ("chunk_witness", ["c01"])],
+    "C16": [("c16_interleave", [])],
+}
+
+def build(repo, scratch, bins):
+    d = os.path.join(scratch, "replay")
+    os.makedirs(d, exist_ok=True)
+    if os.path.exists(os.path.join(d, "src")): shutil.rmtree(os.path.join(d, "src"))
+    shutil.copytree(os.path.join(ROOT, "replay", "src"), os.path.join(d, "src"))
+    t = open(os.path.join(ROOT, "replay", "Cargo.toml.in")).read().replace("@REPO@", os.path.abspath(repo))
+    open(os.path.join(d, "Cargo.toml"), "w").write(t)
+    lock = os.path.join(repo, "Cargo.lock")
+    if os.path.exists(lock): shutil.copy(lock, os.path.join(d, "Cargo.lock"))
+    env = dict(os.environ, CARGO_TARGET_DIR=os.path.join(ROOT, "replay", "target"), CARGO_NET_OFFLINE="true")
+    cmd = ["cargo", "build", "--offline", "--release"] + sum((["--bin", b] for b in sorted(set(bins))), [])
+    p = subprocess.run(cmd, cwd=d, env=env, capture_output=True, text=True, timeout=900)
+    return p.returncode == 0, p.stderr[-2000:]
+
 def find_witness(prop, violations, repo, scratch):
-    return {"found": False, "note": "no witness finder registered for this obligation"}
+    # a failure record may already carry a replayed counterexample (Kani concrete playback)
+    for f in violations:
+        w = f.get("witness")
+        if isinstance(w, dict) and w.get("found"): return w
+    finders = FINDERS.get(prop, [])
+    # other units may register finders through a failure record: {"finder": [binary, args...]}
+    for f in violations:
+        if f.get("finder"): finders = finders + [(f["finder"][0], list(f["finder"][1:]))]
+    if not finders: return {"found": False, "note": "no witness finder registered for this property"}
+    ok, err = build(repo, scratch, [b for b, _ in finders])
+    if not ok: return {"found": False, "note": "replay crate did not build against the tree under test", "cargo": err}
+    seed = os.environ.get("VERIF_SEED", "0") or "0"
+    tried = []
+    for b, args in finders:
+        exe = os.path.join(ROOT, "replay", "target", "release", b)
+        try:
+            p = subprocess.run([exe] + args + [seed], capture_output=True, text=True, timeout=300)
+            out = p.stdout.strip().split("\n")[-1] if p.stdout.strip() else ""
+        except subprocess.TimeoutExpired:
+            tried.append({"finder": b, "args": args, "result": "timeout"}); continue
+        tried.append({"finder": b, "args": args, "exit": p.returncode, "last_line": out[:1500]})
+        if p.returncode != 0 and ("WITNESS" in p.stdout or "DEFECT-REPRODUCED" in p.stdout):
+            return {"found": True, "finder": b, "args": args, "input": out[:3000], "how": "boundary-input enumeration on the real crate against an independent reference codec", "tried": tried}
+        if p.returncode not in (0, 1):
+            return {"found": True, "finder": b, "args": args, "input": "process died with status %d (abort / stack overflow / signal): %s" % (p.returncode, (p.stderr or "")[-500:]), "tried": tried}
+    return {"found": False, "tried": tried}
+
 def replay_file(path, repo):
     d = json.load(open(path))
-    print(json.dumps(d.get("failed_obligations"), indent=1)[:4000])
+    print("failed obligations:")
+    for f in d.get("failed_obligations", []):
+        print("  unit=%s fn=%s %s :: %s  (%s)" % (f.get("unit"), f.get("function"), f.get("message"), (f.get("clause") or "")[:200], f.get("repo_location")))
     w = d.get("witness") or {}
     if w.get("found"):
-        print("WITNESS", json.dumps(w)[:2000]); return 1
-    print("no concrete witness recorded; the failed obligations above are the violation"); return 1
+        print("recorded witness:", json.dumps(w)[:2000])
+        if w.get("finder"):
+            import tempfile
+            sc = tempfile.mkdtemp(prefix="verif-replay-")
+            try:
+                ok, err = build(repo, sc, [w["finder"]])
+                if ok:
+                    p = subprocess.run([os.path.join(ROOT, "replay", "target", "release", w["finder"])] + w.get("args", []) + [os.environ.get("VERIF_SEED", "0") or "0"], capture_output=True, text=True, timeout=300)
+                    print("replayed on %s: exit %d: %s" % (repo, p.returncode, p.stdout.strip()[-1500:]))
+                    return 1 if p.returncode != 0 else 0
+            finally:
+                shutil.rmtree(sc, ignore_errors=True)
+        return 1
+    print("no concrete failing input was found; the failed obligations above are the violation")
+    return 1
